@@ -460,6 +460,7 @@ def cgem_streams(chk: core.Check, n_streams: int):
     import struct
     rng = random.Random(f"C01-cgem-{chk.seed}")
     lines, expect = [], []
+    n_ref = 0
     for _ in range(n_streams):
         version = rng.choice([0, 1])
         n_ev = rng.choice([1, 2, 3, 6])
@@ -474,9 +475,12 @@ def cgem_streams(chk: core.Check, n_streams: int):
                 dbl = [struct.unpack(">Q", struct.pack(">d", rng.uniform(-50, 50)))[0] for _ in range(5 if version == 0 else 4)]
                 cf = [rng.getrandbits(32) for _ in range(2)]
                 st = [rng.getrandbits(32) for _ in range(4)]
-                body = rs.be(2, 1) + rs.enc_tobject(1, 0, 0x03000000) + b"".join(rs.be(4, v) for v in ints) + b"".join(rs.be(8, v) for v in dbl[:2])
+                # referenced objects (kIsReferenced: a 2-byte pidf follows fBits) anywhere, incl. the first cluster of a basket
+                referenced = rng.random() < 0.3
+                body = rs.be(2, 1) + rs.enc_tobject(1, rng.getrandbits(16), 0x03000000 | (rs.K_IS_REFERENCED if referenced else 0), pidf=rng.getrandbits(16)) + b"".join(rs.be(4, v) for v in ints) + b"".join(rs.be(8, v) for v in dbl[:2])
                 body += (rs.be(8, dbl[2]) if version == 0 else b"") + b"".join(rs.be(8, v) for v in dbl[-2:]) + b"".join(rs.be(4, v) for v in cf + st)
-                assert len(body) == (96 if version == 0 else 88)
+                assert len(body) == (96 if version == 0 else 88) + (2 if referenced else 0)
+                n_ref += referenced
                 objs.append(rs.be(4, len(body) | rs.K_BYTE_COUNT_MASK) + body)
                 clusters.append((ints, dbl, cf, st))
             arr = rs.enc_tobjarray(objs, rng, class_name=b"TRecCgemCluster")
@@ -524,6 +528,7 @@ def cgem_streams(chk: core.Check, n_streams: int):
                 chk.obligation_broken("correspondence", "Lean CGEM cluster model vs encoded stream", f"{ml[:200]} / counts {counts}")
                 return
     chk.coverage["cgem_cluster_streams"] = len(lines)
+    chk.coverage["cgem_referenced_clusters"] = int(n_ref)
 
 
 def digi(chk: core.Check):
